@@ -242,7 +242,8 @@ class C14(common.Prop):
     RUNNER_FLOATS = True
     # Reals axioms + the kernel's primitive-float operations that Print Assumptions lists unqualified
     ALLOWED_AXIOMS = set(common.REALS_AXIOMS) | {"of_uint63", "normfr_mantissa", "frshiftexp", "ldshiftexp", "classify", "compare",
-                                                  "next_up", "next_down", "of_sint63"}
+                                                  "next_up", "next_down", "of_sint63",
+                                                  "Classical_Prop.classic"}      # Flocq, in identity_rate_count only
     MODEL_FILES = ["base/Num.v", "model/C14_Count.v", "model/C14_Interp.v", "model/C14_Spline.v", "model/C14_Run.v"]
     RULE = ("bodies with F 2..8 (..12 thorough) frames, 1..3 people, 1..4 points, 1..3 dims; each track draws an observation "
             "pattern class (never/full/once/first/last/ends/prefix/suffix/gaps/inner/random), thorough adds every pattern over "
